@@ -52,6 +52,7 @@ type sumMerger struct{ fl kv.Flusher }
 
 func (m *sumMerger) Init(map[string]interface{}) {}
 func (m *sumMerger) Merge(key uint32, values [][]byte) error {
+	moGateAt()    // multi-output compaction vs. foreign cleanup: parks the job after j finished outputs (multiout.go)
 	closeGateAt() // close-vs-background-job case: parks a job that runs after CloseStore returned (closejob.go)
 	var s uint64
 	for _, v := range values {
@@ -1691,6 +1692,9 @@ func runCase(c *core.Ctx, i int, maxOps int) error {
 	case 1:
 		h.rollup = []int64{300000, 3600000}
 	}
+	if i == 10 {
+		h.rollup = nil // directed case 10: the rollup goroutine has nothing to roll up, it only runs its cleanup
+	}
 	if i == 8 {
 		h.rollup = []int64{300000} // directed case 8: every flush commit carries rollup marks
 	}
@@ -1884,7 +1888,7 @@ func runCase(c *core.Ctx, i int, maxOps int) error {
 }
 
 // nScenarios directed histories run first in every seed (values are still drawn from the case's PRNG).
-const nScenarios = 10
+const nScenarios = 11
 
 func (h *hist) randKVs(n int) [][2]int64 {
 	var kvs [][2]int64
@@ -1940,6 +1944,10 @@ func runScenario(h *hist, which int) {
 	thr := 2
 	if which == 7 {
 		twoObjectsWitness(h)
+		return
+	}
+	if which == 10 {
+		multiOutScenario(h)
 		return
 	}
 	open()
